@@ -26,7 +26,8 @@ RULE = ('cases = (object kind in {sed, cube, conv}, spectral axis ascending/desc
         'with/without apertures, with/without uncertainties (cube), flux unit, memmap (cube), sizes 1..6 models x '
         '1..5 apertures x 2..40 wavelengths, distinct cell values); every case is non-trivial (>= 2 wavelengths, '
         'so a reversal or a mis-permutation changes some cell); distinct = distinct canonical hash of the inputs. '
-        'The directed block enumerates the full product of the discrete dimensions. Histories: 2..4 successive '
+        'The directed block enumerates the full product of the discrete dimensions, plus every ordered pair of '
+        'DIFFERENT units for flux / error (val / unc) per object kind (SEDs also x read order x direction). Histories: 2..4 successive '
         'write(overwrite=True) -> read round trips on ONE path per object kind, fresh contents of the same shape '
         '(sometimes another shape) each time, every read compared with what was written last.')
 UNITS = ['mJy', 'Jy', 'erg/cm2/s', 'erg/s']
@@ -35,6 +36,9 @@ ASSUMPTIONS = [
     'cube and convolved-flux cells, and SED cells stored in erg/cm^2/s, are compared for exact equality; SED cells '
     'stored in mJy, Jy or erg/s pass through SED.read\'s (x*nu)/nu resp. (x/d^2)*d^2 even when unit_flux is the '
     'stored unit, so they are compared to 1e-13 relative; a mislabelled cell differs by O(1)',
+    'flux and error (val and unc) may be held in different permitted units: cubes and convolved fluxes must return '
+    'each array in its own unit, bit-exactly; SED.read(unit_flux=<flux unit>) must return the stored errors expressed '
+    'in the flux unit (F = nu F_nu, L = F d^2, computed by the harness with astropy quantities) to 1e-13 relative',
     'wavelength / frequency arrays are matched to 1e-12 relative (unit-conversion rounding), then cells are keyed '
     'by the matched index',
     'model names shorter than 30 characters',
@@ -52,7 +56,40 @@ def _unit(name):
     return {'mJy': u.mJy, 'Jy': u.Jy, 'erg/cm2/s': u.erg / u.cm ** 2 / u.s, 'erg/s': u.erg / u.s}[name]
 
 
+def _eunit_name(c):
+    """unit of the error / uncertainty arrays (default: the flux unit)"""
+    return c.get('err_unit') or c['unit']
+
+
+def _convert(vals, src, dst, nu_hz, d_kpc):
+    """values in unit `src` expressed in unit `dst` through erg/cm^2/s (F = nu F_nu, L = F d^2), computed here with
+    astropy quantities, independently of sedfitter; nu_hz broadcasts over the last axis"""
+    vals = np.asarray(vals, float)
+    if src == dst:
+        return vals
+    cgs = u.erg / u.cm ** 2 / u.s
+    q = vals * _unit(src)
+    nu = np.asarray(nu_hz, float) * u.Hz
+    dist = (d_kpc * u.kpc).to(u.cm)
+    if src in ('mJy', 'Jy'):
+        q = (q * nu).to(cgs)
+    elif src == 'erg/s':
+        q = (q / dist ** 2).to(cgs)
+    if dst in ('mJy', 'Jy'):
+        q = (q / nu).to(_unit(dst))
+    elif dst == 'erg/s':
+        q = (q * dist ** 2).to(_unit(dst))
+    return np.asarray(q.value, float)
+
+
 def combo_name(c):
+    base = _combo_name(c)
+    if c['kind'] in ('sed', 'cube', 'conv') and _eunit_name(c) != c['unit']:
+        base += '|err=' + _eunit_name(c)
+    return base
+
+
+def _combo_name(c):
     if c['kind'] == 'sed_noerr':
         return 'sed_noerr|' + c['direction']
     if c['kind'] == 'sed':
@@ -80,6 +117,25 @@ def all_combos():
             for hw in (True, False):
                 out.append(dict(kind='conv', direction='asc', order='nu', has_ap=ap, has_unc=True, unit=un, memmap=False,
                                 has_wav=hw))
+    return out + mixed_unit_combos()
+
+
+def mixed_unit_combos():
+    """flux / error (val / unc) held in DIFFERENT permitted units: every ordered pair of distinct units, for SEDs x
+    read order x axis direction, for cubes (with uncertainties) x read order, for convolved fluxes"""
+    out = []
+    for un in UNITS:
+        for eu in UNITS:
+            if eu == un:
+                continue
+            for o in ('nu', 'wav'):
+                for d in ('asc', 'desc'):
+                    out.append(dict(kind='sed', direction=d, order=o, has_ap=(o == 'nu'), has_unc=True, unit=un,
+                                    err_unit=eu, memmap=False))
+                out.append(dict(kind='cube', direction='asc' if o == 'nu' else 'desc', order=o, has_ap=True, has_unc=True,
+                                unit=un, err_unit=eu, memmap=(o == 'wav')))
+            out.append(dict(kind='conv', direction='asc', order='nu', has_ap=True, has_unc=True, unit=un, err_unit=eu,
+                            memmap=False, has_wav=True))
     return out
 
 
@@ -87,7 +143,8 @@ REQUIRED_BRANCHES = sorted({combo_name(c) for c in all_combos()}) + \
     ['write_reverses', 'write_keeps', 'read_reverses', 'read_keeps', 'get_sed', 'get_sed_no_unc', 'single_aperture',
      'multi_aperture', 'single_model', 'multi_model',
      'history_sed', 'history_cube', 'history_conv', 'history_same_shape', 'history_other_shape',
-     'sed_no_err_refused', 'sed_aperture_placeholder', 'cube_valid_flags', 'conv_scalar_columns']
+     'sed_no_err_refused', 'sed_aperture_placeholder', 'cube_valid_flags', 'conv_scalar_columns',
+     'flux_error_units_differ']
 
 
 def fill(rng, combo, small=False, sizes=None):
@@ -260,16 +317,25 @@ def check_sed(c, d, branches, with_model=True):
     from sedfitter.sed import SED
     unit = _unit(c['unit'])
     exact = c['unit'] == 'erg/cm2/s'
+    eun = _eunit_name(c)
+    exact_e = exact and eun == c['unit']
+    if eun != c['unit']:
+        branches.add('flux_error_units_differ')
     wav = np.array(c['wav'], float)
     nw = len(wav)
     prop, mod = [], []
     other = 'wav' if c['order'] == 'nu' else 'nu'
     for im, name in enumerate(c['names']):
         flux = np.array(c['val'][im], float)
-        err = np.array(c['unc'][im], float)
+        err_stored = np.array(c['unc'][im], float)
         nap = flux.shape[0]
-        s = pk.make_sed(name, wav, flux, err, apertures_au=c['aps'], distance_kpc=c['distance_kpc'], unit=unit)
+        s = pk.make_sed(name, wav, flux, err_stored, apertures_au=c['aps'], distance_kpc=c['distance_kpc'], unit=unit)
+        if eun != c['unit']:
+            s.error = err_stored.reshape(s.flux.shape) * _unit(eun)      # errors held in another permitted unit
         nu_in = np.asarray(s.nu.to(u.Hz).value, float)
+        # read back with unit_flux = the stored FLUX unit: the errors must come back as the stored errors expressed
+        # in that unit
+        err = _convert(err_stored, eun, c['unit'], nu_in, c['distance_kpc'])
         fn = os.path.join(d, 'sed_%d.fits' % im)
         try:
             with common.quiet():
@@ -300,9 +366,10 @@ def check_sed(c, d, branches, with_model=True):
         if not _eq(rf, flux[:, idx], exact):
             prop.append('model %s order=%s unit=%s: flux by (aperture, wavelength value): %s'
                         % (name, c['order'], c['unit'], _first_bad(rf, flux[:, idx], exact)))
-        if not _eq(re_, err[:, idx], exact):
-            prop.append('model %s order=%s unit=%s: error by (aperture, wavelength value): %s'
-                        % (name, c['order'], c['unit'], _first_bad(re_, err[:, idx], exact)))
+        if not _eq(re_, err[:, idx], exact_e):
+            prop.append('model %s order=%s unit=%s error unit=%s: error by (aperture, wavelength value), stored errors '
+                        'expressed in the flux unit: %s'
+                        % (name, c['order'], c['unit'], eun, _first_bad(re_, err[:, idx], exact_e)))
         if not np.all(np.abs(rn - nu_in[idx]) <= 1e-12 * nu_in[idx]):
             prop.append('model %s: frequencies not aligned with wavelengths: %r vs %r' % (name, rn.tolist(), nu_in[idx].tolist()))
         if c['has_ap']:
@@ -351,7 +418,7 @@ def check_sed(c, d, branches, with_model=True):
         flat_e = err.reshape(-1)
         if not (np.allclose(rw, mw, rtol=1e-12, atol=0) and np.allclose(rn, mn, rtol=1e-12, atol=0)):
             mod.append('model %s order=%s: wav/nu arrays as read %r / model %r' % (name, c['order'], rw.tolist(), mw))
-        elif not (_eq(rf, flat_f[mf], exact) and _eq(re_, flat_e[me], exact)):
+        elif not (_eq(rf, flat_f[mf], exact) and _eq(re_, flat_e[me], exact_e)):
             mod.append('model %s order=%s: array positions differ from the model: flux %s; error %s'
                        % (name, c['order'], _first_bad(rf, flat_f[mf], exact), _first_bad(re_, flat_e[me], exact)))
     return prop, mod
@@ -369,6 +436,10 @@ def check_cube(c, d, branches, with_model=True):
     prop, mod = [], []
     other = 'wav' if c['order'] == 'nu' else 'nu'
     cube = pk.make_cube(c['names'], wav, val, unc, apertures_au=c['aps'], distance_kpc=c['distance_kpc'], unit=unit)
+    eunit = _unit(_eunit_name(c))
+    if c['has_unc'] and eunit != unit:
+        cube.unc = unc * eunit                   # uncertainties held in another permitted unit (BUNIT is per HDU)
+        branches.add('flux_error_units_differ')
     if c.get('valid') is not None:
         cube.valid = np.array(c['valid'], dtype=int)
         branches.add('cube_valid_flags')
@@ -383,7 +454,7 @@ def check_cube(c, d, branches, with_model=True):
     rw = np.asarray(r.wav.to(u.micron).value, float)
     try:
         rv = _qval(r.val, unit)
-        ru = None if r.unc is None else _qval(r.unc, unit)
+        ru = None if r.unc is None else _qval(r.unc, eunit)
     except AssertionError as e:
         return ['cube: %s' % e], []
     idx = _match(rw, wav)
@@ -447,8 +518,10 @@ def check_cube(c, d, branches, with_model=True):
                 prop.append('get_sed(%r) on the %s cube: flux is not the slice put in: %s'
                             % (name, label, _first_bad(sf, val[im][:, widx], True)))
             if c['has_unc']:
-                if s.error is None or not _eq(_qval(s.error, unit), unc[im][:, widx], True):
-                    prop.append('get_sed(%r) on the %s cube: error is not the slice put in' % (name, label))
+                if s.error is None or s.error.unit != eunit or \
+                        not _eq(np.asarray(s.error.value, float), unc[im][:, widx], True):
+                    prop.append('get_sed(%r) on the %s cube: error is not the slice put in (unit %s, stored in %s)'
+                                % (name, label, None if s.error is None else s.error.unit, eunit))
             elif s.error is not None:
                 prop.append('get_sed(%r): cube has no uncertainties but the SED has errors' % name)
             if c['has_ap']:
@@ -527,8 +600,11 @@ def check_conv(c, d, branches, with_model=True):
         has_wav = c.get('has_wav', True)
         if has_wav:
             cf.central_wavelength = c['wav'][k] * u.micron
+        eunit = _unit(_eunit_name(c))
+        if eunit != unit:
+            branches.add('flux_error_units_differ')
         cf.flux = val[:, :, k] * unit
-        cf.error = unc[:, :, k] * unit
+        cf.error = unc[:, :, k] * eunit
         fn = os.path.join(d, 'conv_%d.fits' % k)
         try:
             with common.quiet():
@@ -539,7 +615,7 @@ def check_conv(c, d, branches, with_model=True):
             continue
         try:
             rf = _qval(r.flux, unit)
-            re_ = _qval(r.error, unit)
+            re_ = _qval(r.error, eunit)
         except AssertionError as e:
             prop.append('conv: %s' % e)
             continue
